@@ -86,7 +86,9 @@ func isPermutationOfBlocks(got string, blocks []string) bool {
 	for k := range count {
 		keys = append(keys, k)
 	}
-	sort.Slice(keys, func(i, j int) bool { return len(keys[i]) > len(keys[j]) || (len(keys[i]) == len(keys[j]) && keys[i] < keys[j]) })
+	sort.Slice(keys, func(i, j int) bool {
+		return len(keys[i]) > len(keys[j]) || (len(keys[i]) == len(keys[j]) && keys[i] < keys[j])
+	})
 	memo := map[string]bool{}
 	var rec func(pos int) bool
 	rec = func(pos int) bool {
